@@ -31,7 +31,7 @@ type DCase struct {
 }
 
 type drec struct {
-	mu  sync.Mutex
+	mu     sync.Mutex
 	got    map[[2]uint64]uint32 // (seid, urr) -> flags word
 	n      int
 	queued []report.SessReport
